@@ -103,7 +103,7 @@ func main() {
 		Name: "c12",
 		Rule: "root = BasicMutableWorld with points 1-4, path 1005, area 2006 (varied) and random tags; 4-40 (thorough: up to 400) ops AddTag/RemoveTag/AddFeature/MergedChange over 12 ids (6 base, 5 overlay-only, 1 never existing), 3 searchable + 3 plain keys, string and int values; all reads dumped after every op; non-trivial = a searchable edit hit a base feature that already carried plain-tag modifications",
 		Quick:    1500,
-		Thorough: 20000,
+		Thorough: 12000,
 		Corpus:   corpus,
 		Case:     runCase,
 	})
